@@ -190,6 +190,9 @@ func (ma *mutAnalysis) internalOnly1(t types.Type) bool {
 func (ma *mutAnalysis) targets(ci ssa.CallInstruction, unit map[*ssa.Function]bool) []*ssa.Function {
 	c := ci.Common()
 	if callee := c.StaticCallee(); callee != nil {
+		if o := callee.Origin(); o != nil {
+			callee = o // an instance of a generic function of the module: the generic's body and summary
+		}
 		if ma.p.InModule(callee) && !unit[callee] {
 			return []*ssa.Function{callee}
 		}
